@@ -775,7 +775,7 @@ def run(ctx):
     # ---- 3. corpus (code -> spec)
     files = jutil.corpus_files(limit=30 if quick else (60 if scale < 1 else None), rng=ctx.rng)
     ctx.log('corpus: %d files' % len(files))
-    recs = jutil.pmap(record_file, [(f, 150 if quick else (400 if scale < 1 else 1200), 100 if quick else 600, ctx.seed + i)
+    recs = jutil.pmap(record_file, [(f, 150 if quick else (400 if scale < 1 else 600), 100 if quick else 300, ctx.seed + i)
                                     for i, f in enumerate(files)], chunksize=1)
     jutil.check_worker_errors(recs)
     ctraces, cwheres, csrcs = [], [], []
